@@ -19,6 +19,16 @@ INFO = {
             'stateful property testing with an allocation-ledger oracle'),
     'C07': ('exploration', 'Histories with snapshots of data(), capacity(), element addresses/identities around every operation; oracle = std::vector invalidation rules as predicates.', '3/C07',
             'stateful property testing with before/after snapshot predicates'),
+    'C03': ('exploration', 'Generated histories over pools of FlatSets (5 comparators x 4 underlying vector types x 4 element kinds) against std::set<int,ModelCmp>: exact element sequence, strict ordering under the set\'s own comparator object, every returned bool/count/position/node compared after each operation.', '3/C03',
+            'model-based stateful property testing (std::set reference model)'),
+    'C08': ('exploration', 'Limit probes embedded in generated histories: the container is filled to the neighbourhood of N / size_type max, a growing call sized to exceed it must throw the documented exception type and leave contents, size, capacity, data(), element identities, live-object and block counts unchanged; at() probes.', '3/C08',
+            'property testing with generated limit probes and unchanged-snapshot oracle'),
+    'C10': ('exploration', 'The eight aliasing call forms (argument = reference to an own element) in generated histories, against copy-first-then-call on std::vector.', '3/C10',
+            'model-based property testing of aliasing calls'),
+    'C13': ('exploration', 'swap2 in generated histories (same-type operands in every storage state) against exchanged std::vector models, with ledgers.', '3/C13',
+            'model-based property testing of swap2'),
+    'C14': ('exploration', 'Generated histories with a RELOCATE step (memcpy the container object to fresh storage, poison and free the source) on every container type declaring trivially_relocatable; model and ledgers continue on the copy.', '3/C14',
+            'stateful property testing with injected byte-wise relocation'),
 }
 NOTE = 'Trusted base: libstdc++ reference containers, the harness (harness/*.hpp), g++ 12 sanitizers, rapidcheck. Checks rebuild against /repo/include (content hash) on every run.'
 
